@@ -121,6 +121,7 @@ pub fn w0() -> SchemaSet {
         }],
         service: "ThingService".into(),
         port: "ThingPortImpl".into(),
+        default_ns_style: false,
         address: "http://127.0.0.1:9/thing".into(),
     };
     SchemaSet { files: vec![], wsdl: Some(w), start: "svc.wsdl".into() }
